@@ -97,36 +97,14 @@ def label_props(label):
     return set(props.split(",")) | extra, name
 
 
-def run_family(res, cfgname, tag=None):
-    """generate -> replay -> judge for one MC configuration; files violations on `res`."""
-    meta, spath = generate(cfgname)
-    tpath = replay(spath, tag or cfgname)
-    devs, nev, _ = judge(tpath)
-    res.states += meta["states"]
-    res.transitions += meta["transitions"]
-    res.scripts += meta["scripts"]
-    res.traces += meta["scripts"]
-    res.events += nev
-    res.legs.append({"family": cfgname, "tlc_states": meta["states"], "tlc_transitions": meta["transitions"],
-                     "scripts": meta["scripts"], "events": nev, "deviations": len(devs)})
-    if devs:
-        attach(res, devs, tpath, spath, cfgname)
-    else:
-        os.remove(tpath)
-    if not res.samples:
-        with open(spath) as f:
-            lines = f.readlines()
-        res.samples.append({"family": cfgname, "script": json.loads(lines[len(lines) // 2])})
-    return devs
-
-
-def attach(res, devs, tpath, spath, family):
-    """Maps each deviation to its script and files it under the properties its label names."""
+def deviation_records(devs, tpath, spath, family):
+    """One self-contained record per deviation: its run's events, its script, its label."""
+    if not devs:
+        return []
     lines = open(tpath).read().splitlines()
     scripts = open(spath).read().splitlines() if spath else None
+    recs = []
     for (ln, label) in devs:
-        props, name = label_props(label)
-        # the run this line belongs to
         k = ln - 1
         while k > 0 and '"e":"cfg"' not in lines[k]:
             k -= 1
@@ -134,15 +112,80 @@ def attach(res, devs, tpath, spath, family):
         end = ln
         while end < len(lines) and '"e":"cfg"' not in lines[end]:
             end += 1
+        script = json.loads(scripts[cfg["sid"] - 1]) if scripts and cfg.get("sid") else None
+        recs.append({"label": label, "family": family, "cfg": cfg, "event_index": ln - k,
+                     "event": lines[ln - 1][:300], "script": script,
+                     "trace": [json.loads(x) for x in lines[k:end]][:300]})
+        if len(recs) >= 2000:
+            break
+    return recs
+
+
+def family_result(cfgname, select=None, tag=None):
+    """generate -> replay -> judge for one MC configuration, memoised on the content of
+    /repo, the harness and the specification (a changed tree is always re-run)."""
+    meta, spath = generate(cfgname)
+    tag = tag or cfgname
+    if select:
+        sel = os.path.join(C.GEN, "%s.%s.ndjson" % (os.path.basename(spath), select.__name__))
+        if not os.path.exists(sel):
+            with open(spath) as f, open(sel + ".tmp", "w") as g:
+                for line in f:
+                    if select(json.loads(line)):
+                        g.write(line)
+            os.replace(sel + ".tmp", sel)
+        spath = sel
+        tag += "-" + select.__name__
+    nscripts = sum(1 for _ in open(spath))
+    key = C.sha(C.repo_hash(), C.tree_hash(C.HARNESS, (".rs", ".toml")), C.spec_hash(), tag)[:20]
+    mpath = os.path.join(C.WORK, "memo", key + ".json")
+    if os.path.exists(mpath) and not os.environ.get("VERIF_NO_MEMO"):
+        out = json.load(open(mpath))
+        out["memo"] = True
+        return out
+    t0 = time.time()
+    tpath = replay(spath, tag)
+    t1 = time.time()
+    devs, nev, _ = judge(tpath)
+    out = {"family": tag, "tlc_states": meta["states"], "tlc_transitions": meta["transitions"],
+           "scripts": nscripts, "events": nev, "deviations": len(devs),
+           "records": deviation_records(devs, tpath, spath, tag),
+           "replay_s": round(t1 - t0, 1), "judge_s": round(time.time() - t1, 1), "memo": False}
+    with open(spath) as f:
+        lines = f.readlines()
+    out["sample"] = json.loads(lines[len(lines) // 2]) if lines else None
+    os.remove(tpath)
+    C.write_json(mpath, out)
+    return out
+
+
+def run_family(res, cfgname, select=None, tag=None):
+    out = family_result(cfgname, select, tag)
+    res.states += out["tlc_states"]
+    res.transitions += out["tlc_transitions"]
+    res.scripts += out["scripts"]
+    res.traces += out["scripts"]
+    res.events += out["events"]
+    res.legs.append({k: v for k, v in out.items() if k not in ("records", "sample")})
+    if out.get("sample") and len(res.samples) < 3:
+        res.samples.append({"family": out["family"], "script": out["sample"]})
+    file_records(res, out["records"])
+    return out
+
+
+def file_records(res, records):
+    """Files each deviation under the properties its label names."""
+    for r in records:
+        props, name = label_props(r["label"])
+        cfg = r["cfg"]
         sig = "%s|%s|role=%s W=%s NB=%s R=%s chk=%s base0=%s|sid=%s" % (
-            name, family, cfg.get("role"), cfg.get("W"), cfg.get("NB"), cfg.get("R"), cfg.get("chk"),
+            name, r["family"], cfg.get("role"), cfg.get("W"), cfg.get("NB"), cfg.get("R"), cfg.get("chk"),
             cfg.get("base0"), cfg.get("sid"))
         if res.prop in props:
-            script = json.loads(scripts[cfg["sid"] - 1]) if scripts and cfg.get("sid") else None
             desc = "%s: %s at event %d of run sid=%s (%s): %s" % (
-                res.prop, label, ln - k, cfg.get("sid"), family, lines[ln - 1][:200])
-            res.add_violation(sig, desc, {"kind": "wsim-script", "family": family, "label": label,
-                                          "script": script, "trace": [json.loads(x) for x in lines[k:end]][:400],
-                                          "first_unexplained_event": ln - k})
+                res.prop, r["label"], r["event_index"], cfg.get("sid"), r["family"], r["event"][:200])
+            res.add_violation(sig, desc, {"kind": "wsim-script", "family": r["family"], "label": r["label"],
+                                          "script": r["script"], "trace": r["trace"],
+                                          "first_unexplained_event": r["event_index"]})
         else:
-            res.drift[label] = res.drift.get(label, 0) + 1
+            res.drift[r["label"]] = res.drift.get(r["label"], 0) + 1
